@@ -1,7 +1,12 @@
 //! rv-fuzz: schema-driven fuzzing of every function and method of every native blueprint (C11).
 use rv_common::*;
 
+mod c11;
 mod catalog;
+mod fledger;
+mod gen;
+mod proxy;
+mod world;
 
 fn list() -> i32 {
     let ledger = rv_ledger::Ledger::new();
@@ -28,6 +33,7 @@ fn main() {
     let args = parse_args();
     let code = match args.prop.as_str() {
         "list" => list(),
+        "C11" => c11::run(&args),
         other => {
             eprintln!("rv-fuzz: no check named {other}");
             2
